@@ -169,7 +169,7 @@ impl Prop for C09 {
             (Just(ty), mat_spec(ty, tier, md), Just(flags)).prop_map(|(ty, spec, flags)| Case { ty, spec, flags })
         }).boxed()
     }
-    fn cases(tier: Tier) -> u32 { tier.pick(60_000, 1_500_000) }
+    fn cases(tier: Tier) -> u32 { tier.pick(200_000, 3_000_000) }
     fn shards(_: Tier) -> usize { 16 }
     fn run(case: &Case, ctx: &Ctx) -> Outcome { to_outcome(run_case(case, ctx.tier)) }
 }
